@@ -92,8 +92,9 @@ _CMP_METHOD = {ast.Eq: ("__eq__", "__eq__"), ast.NotEq: ("__ne__", "__ne__"), as
 
 
 class Interp:
-    def __init__(self, cls: ast.ClassDef):
+    def __init__(self, cls: ast.ClassDef, mod=None):
         self.cls = cls
+        self.mod = mod
         self.methods = methods(cls)
         self.classref = _ClassRef()
         self.fuel = 0
@@ -286,6 +287,10 @@ class Interp:
                 return NOTIMPL
             if n.id == self.cls.name:
                 return self.classref
+            if self.mod is not None:
+                v = self.mod.module_assign(n.id)
+                if isinstance(v, ast.Constant) and isinstance(v.value, (int, float, str, bytes, bool, type(None))):
+                    return v.value
             raise _Unsupported("name " + n.id)
         if isinstance(n, ast.Attribute):
             o = self._expr(n.value, env)
@@ -442,6 +447,18 @@ class Interp:
             if recv is self.classref and f.attr in self.methods and args and isinstance(args[0], _Obj):
                 return self.call(args[0], f.attr, args[1:], kw)  # SerialNumber.__lt__(self, other)
             raise _Unsupported("call " + src(f))
+        if isinstance(f, ast.Name) and f.id not in env and self.mod is not None:
+            # a (private) module-level function of the same module: interpreted in the same whitelisted subset
+            d = self.mod.find(f.id)
+            if isinstance(d, ast.FunctionDef) and not d.decorator_list:
+                self.fuel += 1
+                if self.fuel > 200:
+                    raise _Unsupported("call depth")
+                try:
+                    r = self._block(d.body, self._bind(d, list(args), kw))
+                    return r[1] if r is not None else None
+                finally:
+                    self.fuel -= 1
         callee = self._expr(f, env)
         if callee is self.classref:
             return self.construct(*args, **kw)
@@ -512,7 +529,7 @@ def check(ctx):
     ms = methods(cls)
     for name in ("__init__", "_convertOther", "__eq__", "__lt__", "__gt__", "__le__", "__ge__", "__add__"):
         ctx.func(RFC, f"SerialNumber.{name}")
-    ip = Interp(cls)
+    ip = Interp(cls, mod)
     exhaustive = EXHAUSTIVE_THOROUGH if ctx.tier == "thorough" else EXHAUSTIVE_QUICK
     widths = tuple(sorted(set(exhaustive) | set(BOUNDARY_WIDTHS)))
     ctx.extra["widths_exhaustive"] = list(exhaustive)
@@ -738,6 +755,11 @@ SILENT = [
            "                self._number + other._number,\n"),
     Silent("half-ring-as-modulo-halved", RFC, "        self._halfRing: int = 2 ** (serialBits - 1)\n", "        self._halfRing: int = self._modulo // 2\n"),
     Silent("half-ring-exact-float-division", RFC, "        self._halfRing: int = 2 ** (serialBits - 1)\n", "        self._halfRing: int = int(self._modulo / 2)\n"),
+    Silent("ordering-test-in-module-helper", RFC,
+           "        return (\n            self._number < other._number\n            and (other._number - self._number) < self._halfRing\n        ) or (\n"
+           "            self._number > other._number\n            and (self._number - other._number) > self._halfRing\n        )\n",
+           "        return _before(self._number, other._number, self._halfRing)\n",
+           more=[(RFC, "class SerialNumber(FancyStrMixin):\n", "def _before(a, b, half):\n    if a < b:\n        return (b - a) < half\n    return a > b and (a - b) > half\n\n\nclass SerialNumber(FancyStrMixin):\n")]),
     Silent("le-reordered", RFC, "        return self == other or self < other\n", "        return self < other or other == self\n"),
     Silent("gt-via-swapped-lt", RFC,
            "        return (\n            self._number < other_sn._number\n            and (other_sn._number - self._number) > self._halfRing\n        ) or (\n"
